@@ -2589,7 +2589,10 @@ func (p *parser) insertStmtsAfterSuperCall(body *js_ast.FnBody, stmtsToInsert []
 func findFirstTopLevelSuperCall(expr js_ast.Expr, superCtorRef ast.Ref) (js_ast.Expr, logger.Loc, *js_ast.ECall, js_ast.Expr) {
 	if call, ok := expr.Data.(*js_ast.ECall); ok {
 		if target, ok := call.Target.Data.(*js_ast.EIdentifier); ok && target.Ref == superCtorRef {
-			call.Target.Data = js_ast.ESuperShared
+			// Note: Don't turn "__super()" back into "super()" here. The caller does
+			// that, but only if it can use this call. Otherwise (e.g. when "super()"
+			// is the last expression in the test of an "if" statement) the call must
+			// keep calling the "__super" helper function that is generated instead.
 			return js_ast.Expr{}, expr.Loc, call, js_ast.Expr{}
 		}
 	}
